@@ -161,7 +161,7 @@ func c01Seqified(ctx *core.Ctx, sch *c01Schema, rich M) {
 		ctx.Count("seqified-src-" + src)
 		ctx.Count(fmt.Sprintf("seqified-depth-%d", depth))
 		ctx.Count("seqified-pos-" + pos)
-		ctx.Add("c01load", c01Args{Req: *req, Shape: fmt.Sprintf("seqified/%s/%s/%v", pos, src, nodes[which[0]])})
+		ctx.Add("c01load", c01Args{Req: *req, Delivery: c01DrawDelivery(ctx), Shape: fmt.Sprintf("seqified/%s/%s/%v", pos, src, nodes[which[0]])})
 	}
 	positions := []string{"single", "override", "base", "include"}
 	drawBits := func() int {
